@@ -215,6 +215,14 @@ MUTANTS = [
 ]
 
 REFACTORS = [
+    ("C14-reorder-count-and-entry", "", "removal writes the count before it deletes the entry",
+     [(SQ + "checked_actions/validator_update.rs",
+       "                state.remove_validator(&self.action.verification_key).await;\n                state\n                    .put_validator_count(metadata.current_validator_count.saturating_sub(1))\n                    .wrap_err(\"failed to write validator count to storage\")?;",
+       "                state\n                    .put_validator_count(metadata.current_validator_count.saturating_sub(1))\n                    .wrap_err(\"failed to write validator count to storage\")?;\n                state.remove_validator(&self.action.verification_key).await;", 0)]),
+    ("C01-credit-before-debit-in-bridge-lock", "", "bridge lock credits the bridge account before it debits the signer (same transaction delta)",
+     [(SQ + "checked_actions/bridge/bridge_lock.rs",
+       "        state\n            .decrease_balance(&self.tx_signer, &self.action.asset, self.action.amount)\n            .await\n            .wrap_err(\"failed to decrease signer account balance\")?;\n        state\n            .increase_balance(&self.action.to, &self.action.asset, self.action.amount)\n            .await\n            .wrap_err(\"failed to increase destination account balance\")?;",
+       "        state\n            .increase_balance(&self.action.to, &self.action.asset, self.action.amount)\n            .await\n            .wrap_err(\"failed to increase destination account balance\")?;\n        state\n            .decrease_balance(&self.tx_signer, &self.action.asset, self.action.amount)\n            .await\n            .wrap_err(\"failed to decrease signer account balance\")?;", 0)]),
     ("C18-is-source-de-morgan", "", "is_source rewritten with a correct De Morgan form and a match",
      [(SQ + "checked_actions/ics20_withdrawal.rs",
        "    if let Denom::TracePrefixed(trace) = asset {\n        !trace.has_leading_port(source_port) || !trace.has_leading_channel(source_channel)\n    } else {\n        false\n    }",
